@@ -134,21 +134,37 @@ def run(ctx):
     # ---------------------------------------------------------------- completion validity
     n_cmp = n_cmp_ok = n_cmp_skip = 0
     cmp_kinds = {}
+    skip_kinds = {}
     for r in CMP:
-        _, tid, q, l, c, name, kind, verdict, base, text = (r + [""] * 10)[:10]
+        _, tid, q, l, c, name, kind, verdict, base, text, ictx = (r + [""] * 11)[:11]
         n_cmp += 1
         cmp_kinds[f"{q}:{kind}"] = cmp_kinds.get(f"{q}:{kind}", 0) + 1
         if verdict == "ok":
             n_cmp_ok += 1
         elif verdict.startswith("skip:"):
             n_cmp_skip += 1
+            skip_kinds[verdict.split(":")[1]] = skip_kinds.get(verdict.split(":")[1], 0) + 1
         else:
             v = vlib.unesc(verdict)
             cls = v.split(":", 1)[0]
             complaint = generalise(v.split(":", 1)[1].split(" | ")[0]) if ":" in v else v
-            ctx.report({"oracle": "completion-validity", "query": q, "item_kind": kind, "class": cls, "complaint": complaint},
+            chain = ictx.split(">")
+            if "IMPL" in chain and "BLOCK" not in chain:
+                where = "impl-header"
+            elif len(chain) > 1 and chain[1] == "EXPR_STRUCT_LITERAL":
+                where = "struct-literal-head"
+            elif any(k.startswith("PATTERN") for k in chain):
+                where = "pattern"
+            elif any(k.startswith("TYPE") for k in chain):
+                where = "type"
+            else:
+                where = "expression"
+            sig = {"oracle": "completion-validity", "query": q, "item_kind": kind, "class": cls, "position": where}
+            if where == "expression":
+                sig["complaint"] = complaint
+            ctx.report(sig,
                        f"{q}-completion offers `{name}` ({kind}) but inserting it makes the compiler say: {v[:160]}",
-                       {"id": tid, "line": int(l), "col": int(c), "item": name, "kind": kind, "verdict": v,
+                       {"id": tid, "line": int(l), "col": int(c), "item": name, "kind": kind, "verdict": v, "cst_context_of_inserted_name": ictx,
                         "same_complaint_for_a_nonexistent_name": vlib.unesc(base), "src": vlib.unesc(text)})
 
     ctx.violations.sort(key=lambda v: len(v[2].get("src", "")))
@@ -177,9 +193,11 @@ def run(ctx):
                 errs[k] = errs.get(k, 0) + int(v)
     sizes.sort()
     samples = []
-    for r in T[:400]:
-        if r[2] in ("prefix-token", "mutation") and len(samples) < 3 and int(stat(r, "hover_ok")) > 0:
-            samples.append({"id": r[1], "kind": r[2], "stats": r[3]})
+    texts_by_id = {r[1]: r[2] for r in OFF}
+    for r in T:
+        if r[2] in ("prefix-token", "mutation") and len(samples) < 4 and int(stat(r, "hover_ok")) > 0 \
+                and 60 < int(stat(r, "len")) < 400 and r[1] in texts_by_id and not any(s["kind"] == r[2] for s in samples[1:]):
+            samples.append({"id": r[1], "kind": r[2], "text": bytes.fromhex(texts_by_id[r[1]]).decode("utf-8", "replace"), "stats": r[3]})
     nbases = next((int(r[1]) for r in rows if r[0] == "#BASES"), 0)
     cov = {
         "evaluations": calls + wasm + n_hov + n_cmp,
@@ -198,7 +216,7 @@ def run(ctx):
         "tie": {"texts": len(OFF), "positions": n_pos, "raw_offset_equal": n_raw_eq, "offset_none_agrees_with_hover": n_none_eq,
                 "token_at_offset_equal": n_tok_eq, "completion_prepare_consistent": n_dot_ok, "samples": tie_samples},
         "hover_agreement": {"checked": n_hov, "agree": n_hov_agree, "by_node": hov_kinds},
-        "completion_validity": {"items_checked": n_cmp, "ok": n_cmp_ok, "skipped_field_before_call": n_cmp_skip, "by_kind": cmp_kinds},
+        "completion_validity": {"items_checked": n_cmp, "ok": n_cmp_ok, "skipped": skip_kinds, "by_kind": cmp_kinds},
         "samples": samples,
         "impl_oracle_failures": len(ctx.violations), "model_diffs": len([b for b in ctx.broken_ties if b[0] == "position-mapping correspondence"]),
         "explanation": "partial proof + fault enumeration: the position logic (line/column -> byte offset, rowan token selection, placeholder "
